@@ -6,14 +6,40 @@
 //! the op, see `lean/QV/C10/Model.lean`. Output: the state (listing + used-qubit set) after every
 //! operation on the top-level chain, the used set of the program rebuilt from the final listing, and
 //! `final == rebuilt` (for pairs: both final states and `a == b`).
-use qvh::progs::parse_one;
-use qvh::progwire::{pool_or_exit, Pool, Proj};
+use qvh::progwire::{parse_one, pool_or_exit, Pool, Proj};
 use qvh::*;
 use quil_rs::instruction::{
     Arithmetic, ArithmeticOperand, ArithmeticOperator, Declaration, DefaultHandler, Instruction, JumpWhen, Label,
     MemoryReference, Move, ScalarType, Target, Vector,
 };
 use quil_rs::Program;
+
+thread_local! {
+    /// names of sibling-entry-point relations that failed while running the current case
+    static SIB: std::cell::RefCell<Vec<String>> = const { std::cell::RefCell::new(Vec::new()) };
+}
+
+fn rel(name: &str, ok: bool) {
+    if !ok {
+        SIB.with(|s| s.borrow_mut().push(name.to_string()));
+    }
+}
+
+/// two programs that must be the same program: equal both ways, same listing, same used-qubit set
+fn same(a: &Program, b: &Program) -> bool {
+    a == b && b == a && a.to_instructions() == b.to_instructions() && a.get_used_qubits() == b.get_used_qubits()
+}
+
+/// every returned error is formatted in all the ways a caller might (a panic there is a crash)
+fn format_error<E: std::error::Error>(e: &E) {
+    let _ = e.to_string();
+    let _ = format!("{e:#} {e:?}");
+    let mut src = e.source();
+    while let Some(s) = src {
+        let _ = s.to_string();
+        src = s.source();
+    }
+}
 
 #[derive(Clone)]
 enum OpSpec {
@@ -76,20 +102,41 @@ fn keys_of(pr: &mut Proj, is: &[Instruction]) -> Sexp {
 fn apply(p: &mut Program, op: &OpSpec, pr: &mut Proj) -> Sexp {
     match op {
         OpSpec::Add(i) => {
+            let mut sib = p.clone();
+            sib.add_instructions(vec![i.clone()]);
             p.add_instruction(i.clone());
+            rel("add_instructions([i]) = add_instruction(i)", same(p, &sib));
             tagged("add", vec![pr.instr(i)])
         }
         OpSpec::AddMany(is) => {
+            let mut sib = p.clone();
+            for i in is {
+                sib.add_instruction(i.clone());
+            }
             p.add_instructions(is.clone());
+            rel("add_instruction loop = add_instructions", same(p, &sib));
             tagged("addMany", vec![pr.instrs(is)])
         }
         OpSpec::CloneWb => {
+            let r = MemoryReference { name: "loopn".to_string(), index: 0 };
+            let sib = p.wrap_in_loop(r, Target::Fixed("loop-start".to_string()), 0);
             *p = p.clone_without_body_instructions();
+            rel("wrap_in_loop(0) = clone_without_body_instructions", same(p, &sib));
             tagged("cloneWb", vec![])
         }
         OpSpec::ExpCal { with_map } => {
             let out = expansion_output(p);
-            let res = if *with_map { p.expand_calibrations_with_source_map().map(|(q, _)| q) } else { p.expand_calibrations() };
+            let plain = p.expand_calibrations();
+            let mapped = p.expand_calibrations_with_source_map().map(|(q, _)| q);
+            match (&plain, &mapped) {
+                (Ok(a), Ok(b)) => rel("expand_calibrations = expand_calibrations_with_source_map", same(a, b)),
+                (Err(a), Err(b)) => {
+                    format_error(a);
+                    format_error(b);
+                }
+                _ => rel("expand_calibrations / _with_source_map: one Ok, one Err", false),
+            }
+            let res = if *with_map { mapped } else { plain };
             match (res, out) {
                 (Ok(q), Some(out)) => {
                     *p = q;
@@ -101,11 +148,17 @@ fn apply(p: &mut Program, op: &OpSpec, pr: &mut Proj) -> Sexp {
             }
         }
         OpSpec::ExpSeq { filter, with_map } => {
-            let res = if *with_map {
-                p.expand_defgate_sequences_with_source_map(seq_filter(*filter)).map(|(q, _)| q)
-            } else {
-                p.clone().expand_defgate_sequences(seq_filter(*filter))
-            };
+            let mapped = p.expand_defgate_sequences_with_source_map(seq_filter(*filter)).map(|(q, _)| q);
+            let consuming = p.clone().expand_defgate_sequences(seq_filter(*filter));
+            match (&consuming, &mapped) {
+                (Ok(a), Ok(b)) => rel("expand_defgate_sequences(self) = _with_source_map(&self)", same(a, b)),
+                (Err(a), Err(b)) => {
+                    format_error(a);
+                    format_error(b);
+                }
+                _ => rel("expand_defgate_sequences / _with_source_map: one Ok, one Err", false),
+            }
+            let res = if *with_map { mapped } else { consuming };
             match res {
                 Ok(q) => {
                     let kept: Vec<Instruction> =
@@ -120,6 +173,14 @@ fn apply(p: &mut Program, op: &OpSpec, pr: &mut Proj) -> Sexp {
         }
         OpSpec::Simplify => {
             let out = expansion_output(p);
+            match (p.simplify(&DefaultHandler), p.clone().simplify(&DefaultHandler)) {
+                (Ok(a), Ok(b)) => rel("simplify twice (on a clone)", same(&a, &b)),
+                (Err(a), Err(b)) => {
+                    format_error(&a);
+                    format_error(&b);
+                }
+                _ => rel("simplify twice: one Ok, one Err", false),
+            }
             match (p.simplify(&DefaultHandler), out) {
                 (Ok(q), Some(out)) => {
                     let frames = q.frames.to_instructions();
@@ -162,7 +223,14 @@ fn apply(p: &mut Program, op: &OpSpec, pr: &mut Proj) -> Sexp {
             tagged("wrap", vec![nat(*n as u64), pr.instrs(&hd), pr.instrs(&tl)])
         }
         OpSpec::Resolve => {
+            let mut sib = p.clone();
+            sib.resolve_placeholders_with_custom_resolvers(sib.default_target_resolver(), sib.default_qubit_resolver());
             p.resolve_placeholders();
+            rel("resolve_placeholders = _with_custom_resolvers(default resolvers)", same(p, &sib));
+            // resolving again changes nothing
+            let mut again = p.clone();
+            again.resolve_placeholders();
+            rel("resolve_placeholders idempotent", same(p, &again));
             let body: Vec<Instruction> = p.body_instructions().cloned().collect();
             tagged("resolve", vec![pr.instrs(&body)])
         }
@@ -179,11 +247,15 @@ fn apply(p: &mut Program, op: &OpSpec, pr: &mut Proj) -> Sexp {
             tagged("filter", vec![list(mask.iter().map(|b| boolean(*b)).collect())])
         }
         OpSpec::Rebuild => {
+            let sib = Program::from_instructions(p.clone().into_instructions());
             *p = Program::from_instructions(p.to_instructions());
+            rel("from_instructions(into_instructions) = from_instructions(to_instructions)", same(p, &sib));
             tagged("rebuild", vec![])
         }
         OpSpec::IntoRebuild => {
+            let sib = Program::from(p.to_instructions());
             *p = Program::from_instructions(p.clone().into_instructions());
+            rel("From<Vec>(to_instructions) = from_instructions(into_instructions)", same(p, &sib));
             tagged("intoRebuild", vec![])
         }
         OpSpec::Clone => {
@@ -206,11 +278,13 @@ fn run_hist(spec: &HistSpec, pr: &mut Proj, trace: &mut Option<Vec<Sexp>>) -> (S
         match op {
             OpSpec::Concat(sub, assign) => {
                 let (hs, q) = run_hist(sub, pr, &mut None);
+                let sib = if *assign { p.clone() + q.clone() } else { let mut s = p.clone(); s += q.clone(); s };
                 if *assign {
                     p += q;
                 } else {
                     p = p + q;
                 }
+                rel("a + b = (a += b)", same(&p, &sib));
                 h = tagged("concat", vec![h, hs]);
             }
             _ => {
@@ -218,6 +292,7 @@ fn run_hist(spec: &HistSpec, pr: &mut Proj, trace: &mut Option<Vec<Sexp>>) -> (S
                 h = tagged("op", vec![h, o]);
             }
         }
+        rel("p == p.clone() after every operation", p == p.clone() && p.clone() == p);
         if let Some(t) = trace.as_mut() {
             t.push(pr.state(&p));
         }
@@ -227,6 +302,7 @@ fn run_hist(spec: &HistSpec, pr: &mut Proj, trace: &mut Option<Vec<Sexp>>) -> (S
 
 fn emit_hist(ctx: &mut Ctx, spec: &HistSpec) {
     let mut pr = Proj::new();
+    SIB.with(|s| s.borrow_mut().clear());
     let r = std::panic::catch_unwind(std::panic::AssertUnwindSafe(|| {
         let mut trace = Some(Vec::new());
         let (h, p) = run_hist(spec, &mut pr, &mut trace);
@@ -239,7 +315,7 @@ fn emit_hist(ctx: &mut Ctx, spec: &HistSpec) {
             h,
             tagged(
                 "out",
-                vec![new, tagged("trace", trace.unwrap()), tagged("rused", vec![rused]), tagged("eq", vec![boolean(eq)]), tagged("calq", vec![calq]), pr.key_report()],
+                vec![new, tagged("trace", trace.unwrap()), tagged("rused", vec![rused]), tagged("eq", vec![boolean(eq)]), tagged("calq", vec![calq]), pr.key_report(), tagged("sib", SIB.with(|s| s.borrow().iter().map(|x| st(x.clone())).collect()))],
             ),
         )
     }));
@@ -254,14 +330,16 @@ fn emit_hist(ctx: &mut Ctx, spec: &HistSpec) {
 
 fn emit_pair(ctx: &mut Ctx, a: &HistSpec, b: &HistSpec) {
     let mut pr = Proj::new();
+    SIB.with(|s| s.borrow_mut().clear());
     let r = std::panic::catch_unwind(std::panic::AssertUnwindSafe(|| {
         let (ha, pa) = run_hist(a, &mut pr, &mut None);
         let (hb, pb) = run_hist(b, &mut pr, &mut None);
         let sa = pr.state(&pa);
         let sb = pr.state(&pb);
         let eq = pa == pb;
+        rel("a == b symmetric", eq == (pb == pa));
         let new = pr.take_new();
-        (tagged("pair", vec![ha, hb]), tagged("pout", vec![new, sa, sb, tagged("eq", vec![boolean(eq)]), pr.key_report()]))
+        (tagged("pair", vec![ha, hb]), tagged("pout", vec![new, sa, sb, tagged("eq", vec![boolean(eq)]), pr.key_report(), tagged("sib", SIB.with(|s| s.borrow().iter().map(|x| st(x.clone())).collect()))]))
     }));
     match r {
         Ok((i, out)) => ctx.case(i, move || out),
@@ -349,6 +427,13 @@ fn run(ctx: &mut Ctx) {
             init: texts(&["PRAGMA EXTERN foo legacy \"(c : REAL)\"", "PRAGMA EXTERN bar legacy \"(c : REAL)\"", "CALL foo acc[0]", "DECLARE acc INTEGER[2]"]),
             ops: vec![OpSpec::Add(parse_one("PRAGMA EXTERN foo \"INTEGER (x : INTEGER)\"")), OpSpec::Simplify],
         },
+        HistSpec {
+            init: texts(&["DEFGATE CYC a AS SEQUENCE:\n\tCYD a", "DEFGATE CYD a AS SEQUENCE:\n\tCYC a", "DEFCAL MEASURE 2 addr:\n\tX 11", "CYC 2"]),
+            ops: vec![OpSpec::ExpSeq { filter: 0, with_map: false }, OpSpec::ExpSeq { filter: 0, with_map: true }, OpSpec::Simplify],
+        },
+        // placeholders shared between calibrations and the body: resolve rewrites the body only
+        HistSpec { init: pool.api.clone(), ops: vec![OpSpec::Resolve, OpSpec::Resolve, OpSpec::ExpCal { with_map: false }, OpSpec::Resolve] },
+        HistSpec { init: pool.api.iter().rev().cloned().collect(), ops: vec![OpSpec::CloneWb, OpSpec::Resolve, OpSpec::Rebuild] },
         // simplify keeps a frame that calibration expansion hoisted out of a calibration body (fix 768d37f)
         HistSpec { init: pool.defs.iter().filter(|d| qvh::progs::text_of(d).starts_with("DEFCAL W 3")).cloned().chain(texts(&["W 3", "PULSE 3 \"aux\" wf"])).collect(), ops: vec![OpSpec::Simplify] },
         HistSpec { init: texts(&["DEFCAL RX(pi) 0:\n\tX 30", "DEFCAL DAGGER RX(pi) 0:\n\tX 31", "RX(pi) 0", "DAGGER RX(pi) 0"]), ops: vec![OpSpec::ExpCal { with_map: false }] },
@@ -386,8 +471,19 @@ fn run(ctx: &mut Ctx) {
         texts(&["DEFCAL X 0:\n\tY 7"]),
         texts(&["DECLARE ro BIT[2]", "DEFGATE SEQ a b AS SEQUENCE:\n\tH a\n\tCNOT a b", "SEQ 4 6", "MEASURE 0 ro[0]"]),
     ];
+    // programs that are "empty" in one flavour, through every operation of the alphabet
+    let flavour_starts: Vec<Vec<Instruction>> = vec![
+        vec![],
+        texts(&["DEFCAL MEASURE 2 addr:\n\tX 11"]),
+        texts(&["DEFCAL MEASURE 2 addr:\n\tX 11", "DEFCAL MEASURE 0:\n\tX 43"]),
+        texts(&["DEFCAL X 5:\n\tNOP"]),
+        texts(&["PRAGMA EXTERN foo \"INTEGER (x : INTEGER)\""]),
+        texts(&["DECLARE ro BIT[2]", "DEFGATE SEQ a b AS SEQUENCE:\n\tH a\n\tCNOT a b"]),
+        texts(&["DEFCAL MEASURE 2 addr:\n\tX 11", "MEASURE 2 ro[0]"]),
+    ];
     let max_len = if ctx.quick() { 3 } else { 4 };
-    for start in &starts {
+    for (starts, max_len) in [(&starts, max_len), (&flavour_starts, 2)] {
+    for start in starts.iter() {
         for len in 1..=max_len {
             let mut idx = vec![0usize; len];
             'outer: loop {
@@ -407,6 +503,7 @@ fn run(ctx: &mut Ctx) {
                 }
             }
         }
+    }
     }
 
     // (3) random operation sequences (length <= 8) on random programs
